@@ -255,21 +255,31 @@ structure Outcome where
   history : List (Option Err)
   deriving DecidableEq, Repr
 
+/-- does the history run through the loader the root uses?  (a template that makes its own
+    loader shares it with nothing) -/
+def Root.usesLoader : Root → Bool
+  | .direct _ _ own => !own
+  | .pluginString _ => false
+  | _ => true
+
+def afterHistory (fuel pf : Nat) (fs : FS) (root : Root) (st : St) (history : List Nat) :
+    St × List (Option Err) :=
+  if root.usesLoader then runHistory fuel pf fs st history else (st, [])
+
+/-- bring the root into existence and render it -/
+def finish (fuel pf : Nat) (cfg : Config) (root : Root) (fs : FS) (rootName : Nat)
+    (h : St × List (Option Err)) : Outcome :=
+  match mkRoot cfg fs rootName h.1 root with
+  | .error e => ⟨some e, h.1.sentinel, [], h.2⟩
+  | .ok (st', t, stack) =>
+      let r := gen fuel pf fs true t.cls stack t st'
+      ⟨r.2, r.1.sentinel, r.1.out, h.2⟩
+
 /-- the whole experiment: make the loader, run the history through it, bring the root into
     existence, render it -/
 def run (fuel pf : Nat) (cfg : Config) (root : Root) (fs : FS) (rootName : Nat) (history : List Nat) : Outcome :=
   match mkLoader cfg root with
   | .error e => ⟨some e, [], [], []⟩
-  | .ok st =>
-      let usesLoader := match root with
-        | .direct _ _ own => !own
-        | .pluginString _ => false
-        | _ => true
-      let h := if usesLoader then runHistory fuel pf fs st history else (st, [])
-      match mkRoot cfg fs rootName h.1 root with
-      | .error e => ⟨some e, h.1.sentinel, [], h.2⟩
-      | .ok (st', t, stack) =>
-          let r := gen fuel pf fs true t.cls stack t st'
-          ⟨r.2, r.1.sentinel, r.1.out, h.2⟩
+  | .ok st => finish fuel pf cfg root fs rootName (afterHistory fuel pf fs root st history)
 
 end Genshi.Exec
